@@ -254,7 +254,7 @@ def model(T, i):
         parts = split(p)
         for k in range(len(parts) + 1):
             touched.add(".".join(parts[:k]))
-    info = {"hows": [], "path": [], "nontrivial": False, "competing": False, "tags": set()}
+    info = {"hows": [], "path": [], "nontrivial": False, "competing": False, "tags": set(), "scopes": {}}
 
     def options(n, out):
         for o in OPTS if n.has_opts else ():
@@ -326,6 +326,9 @@ def model(T, i):
             passed = with_env_mapping and how == "env-name"
             if not passed and any(k == below or k.startswith(below + ".") for k in list(en) + list(es)):
                 info["tags"].add("env-mapping-not-passed-to-subcommand")
+                # the class explains located symptoms (settings, choice) only at or below the sub-parser that does
+                # not receive the mapping; the sections of the parsers above it must still be exact
+                info["scopes"].setdefault("env-mapping-not-passed-to-subcommand", []).append(below)
             with_env_mapping = passed
         if choice is None:
             if n.required:
@@ -483,10 +486,11 @@ def token_class(v):
 
 
 def compare(T, n, exp, obs, hows, devs):
-    """Key-by-key comparison of the model's section with the implementation's for parser n (recursive)."""
+    """Key-by-key comparison of the model's section with the implementation's for parser n (recursive).
+    Appends (signature, detail, dotted path of the parser whose section deviates)."""
     lvl = "root" if n.depth == 0 else "nested"
     if not isinstance(obs, dict):
-        devs.append((f"section-not-a-mapping:{lvl}", f"{n.key!r}: {obs!r}"))
+        devs.append((f"section-not-a-mapping:{lvl}", f"{n.key!r}: {obs!r}", n.key))
         return
     for o in OPTS if n.has_opts else ():
         got = obs.get(o, _MISSING)
@@ -496,12 +500,13 @@ def compare(T, n, exp, obs, hows, devs):
                     f"settings:expected-{token_class(exp[o])}-got-{token_class(got)}",
                     f"{(n.key + '.' if n.key else '') + o}: model {exp[o]!r}, implementation "
                     f"{'<missing>' if got is _MISSING else repr(got)}",
+                    n.key,
                 )
             )
     known = set(OPTS if n.has_opts else ()) | (({DEST} | set(n.children)) if n.children else set())
     for k in obs:
         if k not in known:
-            devs.append((f"unexpected-key:{lvl}", f"{n.key!r} has key {k!r}"))
+            devs.append((f"unexpected-key:{lvl}", f"{n.key!r} has key {k!r}", n.key))
     if not n.children:
         return
     how = hows[n.depth] if n.depth < len(hows) else "?"
@@ -513,15 +518,18 @@ def compare(T, n, exp, obs, hows, devs):
                 f"choice:{how}:{lvl}",
                 f"{n.key!r}: model selects {want!r} ({how}), implementation has "
                 f"{'no subcommand key' if got is _MISSING else repr(got)}",
+                n.key,
             )
         )
         return
     for c in n.children:
         if c != want and c in obs:
-            devs.append((f"extra-section:{how}:{lvl}", f"{n.key!r}: chosen {want!r} but section {c!r} = {obs[c]!r} survives"))
+            devs.append(
+                (f"extra-section:{how}:{lvl}", f"{n.key!r}: chosen {want!r} but section {c!r} = {obs[c]!r} survives", n.key)
+            )
     if want is not None:
         if want not in obs:
-            devs.append((f"missing-section:{how}:{lvl}", f"{n.key!r}: chosen {want!r} has no section"))
+            devs.append((f"missing-section:{how}:{lvl}", f"{n.key!r}: chosen {want!r} has no section", n.key))
         else:
             compare(T, T.child(n, want), exp[want], obs[want], hows, devs)
 
@@ -632,13 +640,22 @@ def judge(case):
             compare(T, T.root, m["value"], obs, m["hows"], devs)
     if devs and m["tags"]:
         # the case belongs to the input class of a documented open finding: name the class (only where the class can
-        # explain the symptom), keep the symptom coarse
+        # explain the symptom - and, for a class with a scope, only for symptoms located at or below the parsers the
+        # class is about; symptoms without a location (failure / success of the whole parse) are judged per case),
+        # keep the symptom coarse
+        def in_scope(t, where):
+            sc = m["scopes"].get(t)
+            return sc is None or where is None or any(where == k or where.startswith(k + ".") for k in sc)
+
         tagged = []
-        for sig, detail in devs:
+        for sig, detail, *where in devs:
+            where = where[0] if where else None
             coarse = sig if sig.startswith("settings:") else sig.split(":")[0]
-            tags = [t for t in EXPLAINS if t in m["tags"] and coarse in EXPLAINS[t]]  # first in EXPLAINS' order wins
+            # first in EXPLAINS' order wins
+            tags = [t for t in EXPLAINS if t in m["tags"] and coarse in EXPLAINS[t] and in_scope(t, where)]
             tagged.append((coarse + "@" + tags[0], detail) if tags else (sig, detail))
         devs = tagged
+    devs = [(d[0], d[1]) for d in devs]
     summary = {
         "kind": o["kind"],
         "model_ok": m["ok"],
